@@ -6,6 +6,7 @@ import (
 	"encoding/binary"
 	"fmt"
 	"io"
+	"os"
 	"sort"
 	"strings"
 	"sync"
@@ -172,6 +173,16 @@ func (crashEngine) Generate(prop string, r *simrt.RNG, tier string, run int) *si
 		if r.Chance(1, 8) {
 			// the later pool update that completes a pending light block
 			sc.Ops = append(sc.Ops, simrt.Op{K: "pool", I: []int64{int64(r.Intn(nblk)), int64(r.Intn(6)), int64(r.Intn(3))}}, simrt.Op{K: "tick", I: []int64{450}})
+		}
+	}
+	// gossipsub runs the inline topic validators on one goroutine per message:
+	// bursts of messages from several peers are validated at the same time
+	// (always in the race-detector tier)
+	if r.Chance(1, 4) || os.Getenv("VERIF_RACE") == "1" {
+		for k, m := 0, r.Range(1, 3); k < m; k++ {
+			at := r.Range(nblk, len(sc.Ops))
+			burst := simrt.Op{K: "burst", I: []int64{int64(r.Range(3, 8)), int64(r.Intn(1000)), int64(r.Intn(nblk))}}
+			sc.Ops = append(sc.Ops[:at:at], append([]simrt.Op{burst}, sc.Ops[at:]...)...)
 		}
 	}
 	// stored items are re-processed by the background loops
@@ -417,6 +428,52 @@ func (w *c33World) exec(op *simrt.Op) {
 		}
 		w.input("block")
 		w.deliver(broadcast.SimTopicBlock, n.bsim.Encode(blk), pidOf(op.Int(3)), pidOf(op.Int(3)))
+	case "burst":
+		if len(w.blocks) == 0 {
+			return
+		}
+		// competing full blocks (same height and parent, different hash), light
+		// blocks and transactions from several peers, validated concurrently
+		k, salt := int(op.Int(0)), op.Int(1)
+		type item struct {
+			topic string
+			wire  []byte
+			from  peer.ID
+		}
+		var items []item
+		for g := 0; g < k; g++ {
+			b := w.blocks[(int(op.Int(2))+g/3)%len(w.blocks)]
+			from := pidOf(int64(1 + g%6)) // 7 and 8 are reserved for the liveness probes
+			for j := 0; j < 4; j++ {
+				blk := types.Clone(b.blk).(*types.Block)
+				blk.BlockTime += int64(g*4+j) + salt%5
+				if j == 3 {
+					blk.Height += int64(1 + g%2)
+				}
+				items = append(items, item{broadcast.SimTopicBlock, n.bsim.Encode(blk), from})
+			}
+			items = append(items, item{broadcast.SimTopicLtBlock, n.bsim.Encode(w.mutLight(b, 0, int(salt)+g)), from})
+			tx := n.makeTx(&simrt.Op{K: "tx", I: []int64{salt + int64(g), salt, 7700000 + salt*16 + int64(g)}})
+			items = append(items, item{broadcast.SimTopicTx, n.bsim.Encode(tx), from})
+		}
+		var wg sync.WaitGroup
+		start := make(chan struct{})
+		for g := 0; g < k; g++ {
+			wg.Add(1)
+			go func(g int) {
+				defer wg.Done()
+				<-start
+				for i := g; i < len(items); i += k {
+					it := items[i]
+					w.n.call("pubsub:"+topicName(it.topic), func() { n.bsim.Deliver(it.topic, it.wire, it.from, it.from) })
+				}
+			}(g)
+		}
+		close(start)
+		wg.Wait()
+		simrt.Settle()
+		ctx.Fault("concurrent_validation_burst")
+		w.input("burst")
 	case "txm":
 		tx := n.makeTx(&simrt.Op{K: "tx", I: []int64{op.Int(4), op.Int(4), op.Int(1)}})
 		mutTx(tx, int(op.Int(0)), int(op.Int(4)))
